@@ -111,7 +111,6 @@ Proof. unfold wake. destruct (blocked m f); reflexivity. Qed.
 Ltac shape_done :=
   repeat match goal with
          | |- context [if ?b then _ else _] => destruct b eqn:?
-         | |- context [match ?a with WKRet => _ | _ => _ end] => destruct a
          end;
   cbn; first [ apply shaped_start | constructor
              | apply (sh_yield _ _ YfRead); exact I ].
@@ -192,9 +191,9 @@ Proof.
   pose proof (b_shape s B t) as Sh. pose proof (b_nomutex s B) as Nm.
   remember (stk s t) as S eqn:ES. remember (csize s) as size eqn:Esz. clear ES.
   destruct Sh; cbn.
-  all: try (repeat match goal with
+  all: try (try match goal with a : wk |- _ => destruct a end;
+            repeat match goal with
                    | |- context [if ?b then _ else _] => destruct b eqn:?
-                   | |- context [match ?a with WKRet => _ | _ => _ end] => destruct a
                    end; cbn;
             split; [rewrite ?app_nil_r; shape_done | intros u; cbn; try rewrite wake_nomutex; apply Nm]).
   - (* a yield in progress *)
